@@ -38,26 +38,38 @@ func (r *vhRS15) Seek(offset int64, whence int) (int64, error) {
 // vhHostileFile builds a file of LEN symbolic bytes with designated index-node positions:
 // LAYOUT 0: root node (ARITY1) at offset 0 and, when ARITY2 > 0, a second node right after it;
 // LAYOUT 1: root node (ARITY1) at the end and, when ARITY2 > 0, a second node at offset 0.
+// With ARITY3 > 0 a third node follows the second (three-level trees, mutual references).
 // Only the magic and the first arity byte of designated nodes are fixed; every other byte
 // (pointers, tags, lengths, reserved bytes, second arity byte, version, everything outside the
 // nodes) is symbolic. The checksum of a designated node is "repaired" (or not: symbolic choice).
-// The magic bytes are assumed not to occur at any other offset, so that no checksum is ever
-// evaluated outside the designated nodes (where it could not be repaired for the native replay).
+// The first magic byte (0x72) is assumed not to occur at any other offset inside the nodes, and
+// the bytes outside the nodes (chunk data, never read by ChunkReader) are zero, so that no
+// checksum is ever evaluated outside the designated nodes (where it could not be repaired for
+// the native replay).
 func vhHostileFile() []byte {
 	n := vParam("LEN")
 	f := vBytes("f", n)
 	a1, a2 := vParam("ARITY1"), vParam("ARITY2")
 	s1, s2 := 16*a1+16, 16*a2+16
 	var offs, sizes []int
+	a3 := vParam("ARITY3")
+	s3 := 16*a3 + 16
+	arities := []int{a1, a2, a3}
 	if vParam("LAYOUT") == 0 {
 		offs, sizes = append(offs, 0), append(sizes, s1)
 		if a2 > 0 {
 			offs, sizes = append(offs, s1), append(sizes, s2)
 		}
+		if a3 > 0 {
+			offs, sizes = append(offs, s1+s2), append(sizes, s3)
+		}
 	} else {
 		offs, sizes = append(offs, n-s1), append(sizes, s1)
 		if a2 > 0 {
 			offs, sizes = append(offs, 0), append(sizes, s2)
+			if a3 > 0 {
+				offs, sizes = append(offs, s2), append(sizes, s3)
+			}
 		} else {
 			// the file must still start with the magic; arity byte 0 sends the reader to the end
 			f[0], f[1], f[2], f[3] = 0x72, 0xC3, 0x63, 0
@@ -72,11 +84,7 @@ func vhHostileFile() []byte {
 			vAssume(false)
 		}
 		f[o], f[o+1], f[o+2] = 0x72, 0xC3, 0x63
-		if k == 0 {
-			f[o+3] = byte(a1)
-		} else {
-			f[o+3] = byte(a2)
-		}
+		f[o+3] = byte(arities[k])
 	}
 	for o := 0; o+3 <= n; o++ {
 		designated := false
@@ -86,7 +94,22 @@ func vhHostileFile() []byte {
 			}
 		}
 		if !designated {
-			vAssume(vNot(vAnd(f[o] == 0x72, vAnd(f[o+1] == 0xC3, f[o+2] == 0x63))))
+			inNode := false
+			for k, d := range offs {
+				sz := sizes[k]
+				if sz == 0 {
+					sz = 4 // the bare "magic + zero arity" header of a file whose root is at the end
+				}
+				if o > d && o < d+sz {
+					inNode = true
+				}
+			}
+			if inNode {
+				// the first magic byte does not occur inside a node other than at its start
+				vAssume(f[o] != 0x72)
+			} else {
+				f[o] = 0 // bytes outside the index nodes are chunk data, which ChunkReader never reads
+			}
 		}
 	}
 	for k, o := range offs {
